@@ -56,8 +56,9 @@ ASSUMPTIONS = [
     "every device/service type is base:canonical-decimal-version; nothing else - devices may share UDNs or types, the same "
     "service type may occur in several devices, a device type may equal a service type (all generated); the driver checks "
     "the domain on every tree and reports a tree outside it as a failure",
-    "siblings with the same type string collapse in UpnpDevice's dicts (services / embedded_devices keyed by type); the model "
-    "transcribes that (build) and the judge works on the instantiated tree",
+    "services / embedded devices that share a type are all hosted (UpnpDevice keys further ones <type>#<serviceId> / "
+    "<type>#<UDN>; only a third item with the same type AND the same id/UDN replaces the second); the model transcribes "
+    "that keying (build) and the judge works on the instantiated tree",
     "the server's base URI is http(s), not 127.0.0.1 / [::1] / 169.254 (the listener rejects those by design); IPv4, IPv6 "
     "and named hosts are generated",
     "requester and multicast target are IPv4",
@@ -97,12 +98,12 @@ def make_classes(tree: Dict[str, Any], url: str):
 
     counter = [0]
 
-    def svc_class(stype: str):
+    def svc_class(stype: str, sid: str):
         counter[0] += 1
         n = counter[0]
         return type(f"Svc{n}", (UpnpServerService,), {
             "SERVICE_DEFINITION": ServiceInfo(
-                service_id=f"urn:upnp-org:serviceId:s{n}", service_type=stype, control_url=f"/c{n}",
+                service_id=sid, service_type=stype, control_url=f"/c{n}",
                 event_sub_url=f"/e{n}", scpd_url=f"/s{n}.xml", xml=ET.Element("server_service")),
             "STATE_VARIABLE_DEFINITIONS": {},
         })
@@ -117,15 +118,25 @@ def make_classes(tree: Dict[str, Any], url: str):
                 model_url=None, udn=node["udn"], upc=None, model_description="d", model_number="1", serial_number="1",
                 presentation_url=None, url=url, icons=[], xml=ET.Element("server_device")),
             "EMBEDDED_DEVICES": kids,
-            "SERVICES": [svc_class(s) for s in node.get("svcs", [])],
+            "SERVICES": [svc_class(ty, sid) for ty, sid in svc_pairs(node)],
         })
 
     return dev_class(tree)
 
 
+def svc_pairs(node: Dict[str, Any]) -> List[Tuple[str, str]]:
+    """(service type, service id) of a declared device; an entry of "svcs" is a type (the id is then derived from its
+    position, unique within the device) or a [type, id] pair"""
+    out = []
+    for i, s in enumerate(node.get("svcs", [])):
+        out.append((s, f"urn:upnp-org:serviceId:s{i}") if isinstance(s, str) else (s[0], s[1]))
+    return out
+
+
 def cls_lines(node: Dict[str, Any], depth: int = 0) -> List[str]:
-    svcs = node.get("svcs", [])
-    out = [f"cls {depth} {tok_str(node['udn'])} {tok_str(node['type'])} {','.join(tok_str(s) for s in svcs) if svcs else '~'}"]
+    svcs = svc_pairs(node)
+    out = [f"cls {depth} {tok_str(node['udn'])} {tok_str(node['type'])} "
+           f"{','.join(tok_str(s) for s, _ in svcs) if svcs else '~'} {','.join(tok_str(i) for _, i in svcs) if svcs else '~'}"]
     for k in node.get("kids", []):
         out += cls_lines(k, depth + 1)
     return out
@@ -210,7 +221,14 @@ def tree_tags(device) -> List[str]:
         out.append("tree:device-type-equals-service-type")
     if len({d.udn.lower() for d in devs}) < len(devs):
         out.append("tree:shared-udn")
-    return out
+    for d in devs:
+        kt = [k.device_type for k in d.embedded_devices.values()]
+        if len(set(kt)) < len(kt):
+            out.append("tree:same-type-sibling-devices")
+        st = [x.service_type for x in d.services.values()]
+        if len(set(st)) < len(st):
+            out.append("tree:same-type-services-in-one-device")
+    return sorted(set(out))
 
 
 def depth_of(d) -> int:
@@ -502,6 +520,14 @@ def rand_tree(rng: random.Random, depth: int = 0, used=None) -> Dict[str, Any]:
     if depth < 3:
         nk = rng.choice([0, 0, 1, 1, 2, 3]) if depth == 0 else rng.choice([0, 0, 0, 1, 2])
         node["kids"] = [rand_tree(rng, depth + 1, used) for _ in range(nk)]
+    # services / embedded devices sharing a type are ordinary (two WANConnectionDevices, two identical sensors)
+    if node["svcs"] and len(node["svcs"]) < 3 and rng.random() < 0.25:
+        node["svcs"].append(rng.choice(node["svcs"]))          # same type, another service id
+    if len(node["kids"]) >= 2 and rng.random() < 0.35:
+        a, b = rng.sample(range(len(node["kids"])), 2)
+        node["kids"][b]["type"] = node["kids"][a]["type"]       # sibling devices of one type
+        if rng.random() < 0.1:
+            node["kids"][b]["udn"] = node["kids"][a]["udn"]
     return node
 
 
@@ -540,7 +566,7 @@ def all_targets(rng: random.Random, tree: Dict[str, Any]) -> List[Optional[str]]
         t.append(d["udn"])
         t.append(recase(rng, d["udn"]))
         t.append(d["udn"] + "::" + d["type"])
-        types = [d["type"]] + d["svcs"]
+        types = [d["type"]] + [ty for ty, _ in svc_pairs(d)]
         for ty in types:
             basepart, _, _v = ty.rpartition(":")
             for v in range(0, 6):
@@ -668,6 +694,21 @@ CORPUS += [
              ["search", {"st": "urn:schemas-upnp-org:service:B:1"}], ["search", {"st": "nothing"}], ["search", {"st": None}]]},
     # the *_OPTION_HEADERS options are defined but not read by server.py: packets are unchanged
     {"tree": _ROOT, "custom_headers": {"X-CUSTOM": "1"}, "ops": [["search", {"st": "ssdp:all"}], ["astart"], ["advance", 31000], ["astop"]]},
+]
+
+
+_SENSOR = "urn:acme-com:device:Sensor:1"
+_TEMP = "urn:acme-com:service:Temp:2"
+CORPUS += [
+    # same-type sibling devices and same-type services (distinct ids) are all hosted: every one is answered and advertised
+    {"tree": _t("uuid:hub", "urn:acme-com:device:Hub:1", [_TEMP, _TEMP, _TEMP],
+                [_t("uuid:s1", _SENSOR, [_TEMP, _TEMP]), _t("uuid:s2", _SENSOR, [_TEMP]), _t("uuid:s3", _SENSOR)]),
+     "ops": [["search", {"st": "ssdp:all"}], ["search", {"st": _TEMP}], ["search", {"st": "urn:acme-com:device:sensor:0"}],
+             ["search", {"st": "uuid:s3"}], ["astart"], ["advance", 1000000], ["astop"]]},
+    # the corner of the keying scheme: a third item with the same type AND the same service id / UDN replaces the second
+    {"tree": _t("uuid:hub", "urn:acme-com:device:Hub:1", [[_TEMP, "id:a"], [_TEMP, "id:a"], [_TEMP, "id:a"], [_TEMP, "id:b"]],
+                [_t("uuid:s1", _SENSOR, [_TEMP]), _t("uuid:s1", _SENSOR), _t("uuid:s1", _SENSOR, [_TEMP, _TEMP])]),
+     "ops": [["search", {"st": "ssdp:all"}], ["search", {"st": _SENSOR}], ["astart"], ["advance", 100000], ["astop"]]},
 ]
 
 
